@@ -19,8 +19,10 @@ SENext == \/ Pick(0, 0..4) \/ Pick(1, Containers) \/ Pick(2, -1..5) \/ Pick(3, -
 HLVals == {0, 1, 5, 7}
 HLEvents == UNION {[1..n -> [1..2 -> HLVals]] : n \in 0..MaxN}
 ChForm(t, xs, named) == [t |-> t, xs |-> xs, named |-> named]
+(* named[i] = 2: the position is written as a NEGATIVE index (counted from the last channel) *)
 HLForms == {ChForm("absent", <<1, 2>>, <<0, 0>>), ChForm("pos", <<1>>, <<0>>), ChForm("name", <<2>>, <<1>>),
-            ChForm("list", <<1, 2>>, <<0, 0>>), ChForm("list", <<2>>, <<1>>), ChForm("list", <<2, 1>>, <<1, 0>>)}
+            ChForm("list", <<1, 2>>, <<0, 0>>), ChForm("list", <<2>>, <<1>>), ChForm("list", <<2, 1>>, <<1, 0>>),
+            ChForm("pos", <<2>>, <<2>>), ChForm("pos", <<1>>, <<2>>), ChForm("list", <<2, 1>>, <<2, 0>>)}
 Named(f) == \E i \in 1..Len(f.named) : f.named[i] = 1
 HLNext == \/ Pick(0, HLEvents) \/ Pick(1, Containers)
           \/ stage = 2 /\ \E f \in HLForms : (Named(f) => scn[2] = "sample") /\ scn' = Append(scn, f) /\ stage' = 3 /\ UNCHANGED out
@@ -31,7 +33,7 @@ HLNext == \/ Pick(0, HLEvents) \/ Pick(1, Containers)
 ELPts == {<<x, y, 3>> : x \in {1, 2, 3, 4, 5, 7}, y \in {1, 2, 3, 4, 5}}
 ELEvents == UNION {[1..n -> ELPts] : n \in 0..MaxN}
 ELForms == {ChForm("list", <<1, 2>>, <<0, 0>>), ChForm("list", <<2, 1>>, <<1, 0>>), ChForm("list", <<1, 2>>, <<1, 1>>),
-            ChForm("list", <<1>>, <<0>>), ChForm("list", <<1, 2, 3>>, <<0, 0, 0>>)}
+            ChForm("list", <<1>>, <<0>>), ChForm("list", <<1, 2, 3>>, <<0, 0, 0>>), ChForm("list", <<1, 2>>, <<2, 2>>)}
 ELParams == {<<3, 3, 2, 1>>, <<3, 3, 1, 2>>, <<3, 3, 2, 2>>, <<4, 2, 4, 1>>, <<3, 3, 1, 1>>}
 ELNext == \/ Pick(0, ELEvents) \/ Pick(1, Containers)
           \/ stage = 2 /\ \E f \in ELForms : (Named(f) => scn[2] = "sample") /\ scn' = Append(scn, f) /\ stage' = 3 /\ UNCHANGED out
